@@ -105,3 +105,10 @@ def case_class(case, r):
 
 def extra_coverage():
     return {}
+
+
+UNITS_NAME = "answer_paths_explored"
+
+
+def units(case, r):
+    return len(r.get('paths', []))
